@@ -82,6 +82,10 @@ def run(ctx, build):
                 procutil.seed_partial_group(main, [1] * lay.N, name='Fit')
                 g = procutil.seed_partial_group(main, [1] + [0] * (lay.N - 1), name='Fit', parms={'parm_1': 2})
             f.create_group('Measurement_000/Other').create_dataset('plain', data=np.arange(5))
+            # a placeholder created in an earlier writable session by the very call that is later repeated on the read-only handle,
+            # already linked to its ancillaries
+            with common.quiet():
+                hu.create_empty_dataset(main, np.float32, 'Earlier_Empty')
 
     def read_calls(f, lay):
         """list of (label, thunk) read-side calls with generated arguments"""
@@ -198,6 +202,13 @@ def run(ctx, build):
                 ('copy_main_attributes', lambda: hu.copy_main_attributes(main, grp['Position_Indices'])),
                 ('slice_to_dataset', lambda: u.slice_to_dataset({lay.pos_labels[0]: 0})),
                 ('reduce_to_hdf5', lambda: u.reduce([lay.pos_labels[0]], to_hdf5=True)),
+                ('create_empty_dataset_existing_compatible', lambda: hu.create_empty_dataset(main, np.float32, 'Earlier_Empty')),
+                ('check_and_link_ancillary_relink_from_main', lambda: hu.check_and_link_ancillary(
+                    grp['Earlier_Empty'], ['Position_Indices', 'Position_Values', 'Spectroscopic_Indices', 'Spectroscopic_Values'], h5_main=main)),
+                ('check_and_link_ancillary_refs', lambda: hu.check_and_link_ancillary(
+                    grp['Earlier_Empty'], ['Position_Indices'], anc_refs=[grp['Position_Indices'].ref])),
+                ('link_as_main', lambda: hu.link_as_main(grp['Earlier_Empty'], grp['Position_Indices'], grp['Position_Values'],
+                                                         grp['Spectroscopic_Indices'], grp['Spectroscopic_Values'])),
                 ('Process', lambda: procutil.MapProc(main)),
                 ('Process.compute', lambda: procutil.MapProc(main).compute(override=True)),
                 # the same with earlier results of the very same process in the target: complete (Fit_000) and partial (Fit_001)
@@ -222,7 +233,7 @@ def run(ctx, build):
     out.rule = ('sequences of 3..8 read-side calls (22 kinds: recognise, wrap, print, search, reshape eager/lazy, toggle, slice N-D / 2-D, reduce in memory, unit '
                 'values, look up earlier results, compare parameters, print_tree) with generated arguments on generator files opened "r" (SHA-256 of the '
                 'file before/after) and "r+" (canonical dump of every dataset and attribute before/after), a dynamic tracer on every h5py write entry '
-                'point; 14 write-side entry points (incl. Process on a target that already holds complete / partial results of the same process) against a read-only handle; non-trivial = distinct call sequence')
+                'point; 18 write-side entry points (incl. re-creating / re-linking an existing placeholder, Process on a target that already holds complete / partial results of the same process) against a read-only handle; non-trivial = distinct call sequence')
     out.histogram = hist
     an = effects.build(ctx.repo)
     out.extra = {'graph_nodes': len(an.funcs), 'read_entry_points': len(effects.READ_ENTRY_POINTS), 'exhaustive_graph': True,
